@@ -86,7 +86,7 @@ theorem tagLoop_col (term : UInt8) : TagLoop colMetaL term where
 /-- `EndOk term ending rest`: the text `ending` yields the token `term` and leaves `rest` -/
 inductive EndOk : UInt8 → List UInt8 → List UInt8 → Prop
   | brace (w rest : List UInt8) (hw : Blanks w) : EndOk 125 (w ++ 125 :: rest) rest
-  | nl (nl rest : List UInt8) (hn : Nl nl) : EndOk 10 (nl ++ rest) rest
+  | nl (w nl rest : List UInt8) (hw : Blanks w) (hn : Nl nl) (hcr : NoLF nl rest) : EndOk 10 (w ++ (nl ++ rest)) rest
   | comma (rest : List UInt8) : EndOk 44 (44 :: rest) rest
 
 theorem nl_head {nl : List UInt8} (h : Nl nl) (rest : List UInt8) :
@@ -94,19 +94,33 @@ theorem nl_head {nl : List UInt8} (h : Nl nl) (rest : List UInt8) :
   cases h with
   | lf => exact ⟨10, rest, rfl, Or.inl rfl⟩
   | crlf => exact ⟨13, 10 :: rest, rfl, Or.inr rfl⟩
+  | cr => exact ⟨13, rest, rfl, Or.inr rfl⟩
+
+/-- blanks, then a line ending: one `.ch 10` token -/
+theorem lexRead_nlW (ws : List UInt8) (hws : Blanks ws) (nl : List UInt8) (hn : Nl nl) (s : Scan) (rest : List UInt8)
+    (h : At s (ws ++ (nl ++ rest))) (hcr : NoLF nl rest) (hs : s.stash.length ≤ 1) (hs0 : ws = [] → s.stash = [])
+    (fuel : Nat) (hf : ws.length + 2 ≤ fuel) :
+    ∃ s', lexRead fuel s = .ok { sc := s', tok := .ch 10 } ∧ At s' rest ∧ s'.stash = [] := by
+  obtain ⟨f, rfl⟩ : ∃ f, fuel = f + 1 := ⟨fuel - 1, by omega⟩
+  obtain ⟨b, r, e, hb⟩ := nl_head hn rest
+  have hb32 : b ≠ 32 := by rcases hb with rfl | rfl <;> decide
+  have hb9 : b ≠ 9 := by rcases hb with rfl | rfl <;> decide
+  obtain ⟨s1, f', h1, hs1, _, _, e1⟩ := lexRead_skip ws hws s b r (by rw [← e]; exact h) hb32 hb9 hs hs0 f (by omega)
+  obtain ⟨s', e2, h2, hs2⟩ := lexRead_nl nl hn s1 rest (by rw [e]; exact h1) hcr (by simp [hs1]) f'
+  exact ⟨s', by rw [e1, e2], h2, hs2⟩
 
 theorem EndOk.delim {term : UInt8} {ending rest : List UInt8} (h : EndOk term ending rest) : DelimW ending := by
   cases h with
   | brace w rest hw => exact DelimW_blanks_end hw (by decide) rest
-  | nl nl rest hn =>
+  | nl w nl rest hw hn hcr =>
     obtain ⟨b, r, e, hb⟩ := nl_head hn rest
-    rw [e]; exact Or.inr (Or.inl ⟨b, r, rfl, by rcases hb with rfl | rfl <;> decide⟩)
+    rw [e]; exact DelimW_blanks_end hw (by rcases hb with rfl | rfl <;> decide) r
   | comma rest => exact Or.inr (Or.inl ⟨44, rest, rfl, by decide⟩)
 
 theorem EndOk.ne {term : UInt8} {ending rest : List UInt8} (h : EndOk term ending rest) : ending ≠ [] := by
   cases h with
   | brace w rest hw => simp
-  | nl nl rest hn => obtain ⟨b, r, e, _⟩ := nl_head hn rest; rw [e]; simp
+  | nl w nl rest hw hn hcr => obtain ⟨b, r, e, _⟩ := nl_head hn rest; rw [e]; simp
   | comma rest => simp
 
 theorem EndOk.stopLit {term : UInt8} {ending rest : List UInt8} (h : EndOk term ending rest) : Stop isLitB ending :=
@@ -124,9 +138,14 @@ theorem EndOk.lex {term : UInt8} {ending rest : List UInt8} (h : EndOk term endi
     simp only [List.length_append, List.length_cons] at hf
     exact lexRead_specialW w hw s 125 rest hat (by decide) (by decide) hs
       (by intro e; subst e; exact hs0 (by simp)) fuel (by omega)
-  | nl nl rest hn =>
-    obtain ⟨f, rfl⟩ : ∃ f, fuel = f + 1 := ⟨fuel - 1, by omega⟩
-    exact lexRead_nl nl hn s rest hat hs f
+  | nl w nl rest hw hn hcr =>
+    simp only [List.length_append] at hf
+    refine lexRead_nlW w hw nl hn s rest hat hcr hs ?_ fuel (by omega)
+    intro e; subst e
+    obtain ⟨b, r, e, hb⟩ := nl_head hn rest
+    apply hs0
+    simp only [List.nil_append, e, List.head?_cons, ne_eq, Option.some.injEq]
+    rcases hb with rfl | rfl <;> decide
   | comma rest =>
     exact lexRead_specialW [] Blanks.nil s 44 rest hat (by decide) (by decide) hs (fun _ => hs0 (by simp)) fuel
       (by simp at hf ⊢; omega)
@@ -172,35 +191,33 @@ theorem NextOk_nil (hL : TagLoop loop term) : NextOk loop term .nil [] where
 theorem ident_head {k : List Char} (h : isIdent k = true) : ∃ b r, encChars k = b :: r ∧ isLowerB b = true :=
   isIdent_head h
 
-theorem NextOk_space {k2 : List Char} {v2 : Val} {t2 : Tags} {w body2 : List UInt8} (hw : Blanks w)
-    (ih : RdTagsW loop term (.cons k2 v2 t2) body2) : NextOk loop term (.cons k2 v2 t2) (32 :: (w ++ body2)) := by
+theorem NextOk_space {k2 : List Char} {v2 : Val} {t2 : Tags} {w body2 : List UInt8} (hw : Blanks w) (hne : w ≠ [])
+    (ih : RdTagsW loop term (.cons k2 v2 t2) body2) : NextOk loop term (.cons k2 v2 t2) (w ++ body2) := by
   obtain ⟨afterK, hb, hk, hstop, hrun⟩ := ih k2 v2 t2 rfl
   obtain ⟨b, r, ek, hlow⟩ := ident_head hk
   constructor
   · intro ending rest hE
     right; right
     cases w with
-    | nil =>
-      refine ⟨32, b, r ++ afterK ++ ending, ?_, Or.inl rfl, Or.inr (Or.inr (Or.inr hlow))⟩
-      rw [hb, ek]; simp
+    | nil => exact absurd rfl hne
     | cons x w' =>
-      refine ⟨32, x, w' ++ body2 ++ ending, by simp, Or.inl rfl, ?_⟩
-      rcases Blanks.head hw with h | h
-      · exact Or.inl h
-      · exact Or.inr (Or.inl h)
+      cases w' with
+      | nil =>
+        refine ⟨x, b, r ++ afterK ++ ending, ?_, Blanks.head hw, Or.inr (Or.inr (Or.inr hlow))⟩
+        rw [hb, ek]; simp
+      | cons y w'' =>
+        refine ⟨x, y, w'' ++ body2 ++ ending, by simp, Blanks.head hw, ?_⟩
+        rcases Blanks.head (Blanks.tail hw) with h | h
+        · exact Or.inl h
+        · exact Or.inr (Or.inl h)
   · intro depth f g sc acc ending rest hE hp hf hg hn
-    have hbl : Blanks (32 :: w) := by
-      intro x hx
-      simp only [List.mem_cons] at hx
-      rcases hx with rfl | hx
-      · exact Or.inl rfl
-      · exact hw x hx
     have hlenk := encChars_length_ge k2
-    simp only [List.length_cons, List.length_append, hb] at hf hg
-    have hat : At sc ((32 :: w) ++ (encChars k2 ++ (afterK ++ ending))) := by
+    have hwl : 1 ≤ w.length := by cases w with | nil => exact absurd rfl hne | cons _ _ => simp
+    simp only [List.length_append, hb] at hf hg
+    have hat : At sc (w ++ (encChars k2 ++ (afterK ++ ending))) := by
       have := hp.1; rw [hb] at this; simpa using this
-    obtain ⟨s', e, h', hs'⟩ := lexRead_idW (32 :: w) hbl k2 hk sc (afterK ++ ending) hat (hstop ending rest hE)
-      hp.2.1 (by intro e; cases e) f (by simp; omega)
+    obtain ⟨s', e, h', hs'⟩ := lexRead_idW w hw k2 hk sc (afterK ++ ending) hat (hstop ending rest hE)
+      hp.2.1 (fun e => absurd e hne) f (by omega)
     obtain ⟨p', e', ht', hat', hst'⟩ := hrun depth g s' true acc ending rest hE h' hs'
       (by simp only [hb, List.length_append]; omega) hn
     exact ⟨_, p', e, rfl, e', ht', hat', hst'⟩
